@@ -475,6 +475,13 @@ impl RequestIdManager {
 		self.id_kind.into_id(self.current_id.next())
 	}
 
+	/// Reserves `len` consecutive request IDs, to be used in a batch request.
+	///
+	/// No other request gets an ID out of the returned range.
+	pub fn next_request_id_range(&self, len: u64) -> Result<Range<u64>, Error> {
+		generate_batch_id_range(Id::Number(self.current_id.next_n(len)), len)
+	}
+
 	/// Get a handle to the `IdKind`.
 	pub fn as_id_kind(&self) -> IdKind {
 		self.id_kind
@@ -509,8 +516,13 @@ impl CurrentId {
 	}
 
 	fn next(&self) -> u64 {
+		self.next_n(1)
+	}
+
+	/// Takes `n` consecutive IDs and returns the first.
+	fn next_n(&self, n: u64) -> u64 {
 		self.0
-			.fetch_add(1, Ordering::Relaxed)
+			.fetch_add(n.try_into().unwrap_or(usize::MAX), Ordering::Relaxed)
 			.try_into()
 			.expect("usize -> u64 infallible, there are no CPUs > 64 bits; qed")
 	}
